@@ -200,6 +200,13 @@ pub fn item_sweep(i: u64) -> PartCase {
     }
 }
 
+/// the configurations of C16's total-size leg (exactly 65536 words, and one word more - which the
+/// builders accept, a recorded C16 finding): whatever calculate_size says, write_into must agree with it
+pub(crate) fn c06_total_oracle(i: &u64, st: &mut Stats) -> Verdict {
+    st.label("packets of 65536 / 65537 words");
+    c06_oracle(&total_size_case(*i), st)
+}
+
 pub fn c06(tier: Tier) -> Check {
     Check {
         property: "C06",
@@ -262,6 +269,7 @@ pub fn c06(tier: Tier) -> Check {
             }),
             Box::new(RandomLeg { name: "sdes-chunk-and-item-builders", cases: tier.pick(20_000, 300_000), make: Box::new(|| part_case(true)), oracle: c06_part_oracle }),
             Box::new(SweepLeg { name: "sdes-item-length-limits", n: ITEM_SWEEP_N, at: Box::new(item_sweep), oracle: c06_part_oracle, exhaustive: true }),
+            Box::new(SweepLeg { name: "largest-packets", n: 16, at: Box::new(|i| i), oracle: c06_total_oracle, exhaustive: false }),
         ],
     }
 }
@@ -495,10 +503,12 @@ pub fn c16(tier: Tier) -> Check {
     }
 }
 
-const LIMIT_SWEEP_N: u64 = 256 + 256 + 40 + 40 + 40 + 40 + 300 + 300 + 4 * 300 + 256 * 10 + 10 + 8 + 12;
+const LISTS: u64 = 601; // list sizes 0..=600: past 256+31, where a count truncated to 8 bits aliases a legal one
+const LENS: u64 = 801; // text lengths 0..=800: past 512+255
+const LIMIT_SWEEP_N: u64 = 256 + 256 + 4 * LISTS + 2 * LENS + 4 * LENS + 256 * 10 + 10 + 8 + 12 + 2 * 81;
 
-/// count/subtype 0..=255; list sizes 0..=39; reason / value lengths 0..=299; PRIV splits; RPSI pt x bits;
-/// cumulative lost around 2^24; APP names; payload alignments
+/// count/subtype 0..=255; list sizes 0..=600; reason / value lengths 0..=800; PRIV splits; RPSI pt x bits;
+/// cumulative lost around 2^24; APP names; payload alignments; APP / unknown payload length x padding residues
 fn limit_sweep(mut i: u64) -> BuildCase {
     let mk = |spec| BuildCase { spec, how: How::default(), salt: 0 };
     let rb = |cl: u32| RbSpec { ssrc: 1, fraction_lost: 255, cumulative_lost: cl, ..Default::default() };
@@ -510,40 +520,40 @@ fn limit_sweep(mut i: u64) -> BuildCase {
         return mk(PacketSpec::App(AppSpec { ssrc: 2, subtype: i as u8, name: "nm".into(), data: vec![], padding: 0 }));
     }
     i -= 256;
-    if i < 40 {
+    if i < LISTS {
         return mk(PacketSpec::Sr(SrSpec { ssrc: 3, blocks: (0..i).map(|_| rb(7)).collect(), ..Default::default() }));
     }
-    i -= 40;
-    if i < 40 {
+    i -= LISTS;
+    if i < LISTS {
         return mk(PacketSpec::Rr(RrSpec { ssrc: 3, blocks: (0..i).map(|_| rb(0x00ff_ffff)).collect(), padding: 0 }));
     }
-    i -= 40;
-    if i < 40 {
+    i -= LISTS;
+    if i < LISTS {
         return mk(PacketSpec::Bye(ByeSpec { sources: (0..i as u32).collect(), reason: None, padding: 0 }));
     }
-    i -= 40;
-    if i < 40 {
+    i -= LISTS;
+    if i < LISTS {
         return mk(PacketSpec::Sdes(SdesSpec { chunks: (0..i as u32).map(|s| ChunkSpec { ssrc: s, items: vec![] }).collect(), padding: 0 }));
     }
-    i -= 40;
-    if i < 300 {
+    i -= LISTS;
+    if i < LENS {
         return mk(PacketSpec::Bye(ByeSpec { sources: vec![9], reason: Some("z".repeat(i as usize)), padding: 0 }));
     }
-    i -= 300;
-    if i < 300 {
+    i -= LENS;
+    if i < LENS {
         return mk(PacketSpec::Sdes(SdesSpec { chunks: vec![ChunkSpec { ssrc: 4, items: vec![ItemSpec { ty: 2, prefix: vec![], value: "y".repeat(i as usize) }] }], padding: 0 }));
     }
-    i -= 300;
-    if i < 4 * 300 {
-        // PRIV: prefix length from {0, 1, 127, 200} x value length 0..=299
-        let prefix = [0usize, 1, 127, 200][(i / 300) as usize];
-        let value = (i % 300) as usize;
+    i -= LENS;
+    if i < 4 * LENS {
+        // PRIV: prefix length from {0, 1, 127, 200} x value length 0..=800
+        let prefix = [0usize, 1, 127, 200][(i / LENS) as usize];
+        let value = (i % LENS) as usize;
         return mk(PacketSpec::Sdes(SdesSpec {
             chunks: vec![ChunkSpec { ssrc: 5, items: vec![ItemSpec { ty: 8, prefix: vec![0x11; prefix], value: "w".repeat(value) }] }],
             padding: 0,
         }));
     }
-    i -= 4 * 300;
+    i -= 4 * LENS;
     if i < 256 * 10 {
         let pt = (i % 256) as u8;
         let bits = (i / 256) as u8;
@@ -560,6 +570,16 @@ fn limit_sweep(mut i: u64) -> BuildCase {
         return mk(PacketSpec::Rr(RrSpec { ssrc: 6, blocks: vec![rb(1), rb(cl)], padding: 0 }));
     }
     i -= 8;
+    if i >= 12 {
+        // payload length 0..=8 x padding 0..=8: two unaligned values whose residues cancel must still be rejected
+        i -= 12;
+        let (data, padding) = ((i % 81) / 9, (i % 81) % 9);
+        return mk(if i < 81 {
+            PacketSpec::App(AppSpec { ssrc: 8, subtype: 3, name: "resd".into(), data: vec![0x33; data as usize], padding: padding as u8 })
+        } else {
+            PacketSpec::Unknown(UnknownSpec { pt: 211, count: 1, data: vec![0x44; data as usize], padding: padding as u8 })
+        });
+    }
     let names: [(&str, usize); 12] =
         [("", 0), ("a", 1), ("ab", 2), ("abc", 3), ("abcd", 4), ("abcde", 5), ("ab\u{e9}", 6), ("\u{e9}", 7), ("\0\0\0\0", 8), ("\x7f", 9), ("\u{80}", 10), ("abcd\0", 11)];
     let (name, data) = names[i as usize % 12];
